@@ -234,6 +234,15 @@ def b_threads(ctx, t):
     g, s = gets[0], sets[0]
     gcall = [c for c in walk_no_nested(g.ast) if isinstance(c, ast.Call) and src(c.func) == "datastore.get"][0]
     scall = [c for c in walk_no_nested(s.ast) if isinstance(c, ast.Call) and src(c.func) == "datastore.set"][0]
+    # the thread is stored BEFORE the reply leaves: the write is awaited where it stands (a detached task / un-awaited coroutine lets the next turn of the thread
+    # read the old history, and the late write then overwrites what that turn stored)
+    for name_, calls_ in (("datastore.get", [gcall]), ("datastore.set", [scall])):
+        for c_ in calls_:
+            awaited = isinstance(getattr(c_, "_parent", None), ast.Await)
+            ctx.check("C20.b.store-awaited", API, "chat_completion", "%s is awaited in place" % name_, awaited,
+                      "`await %s(...)`: the turn continues only when the store has answered" % name_ if awaited else
+                      "`%s(...)` is not awaited where it is called (handed to a background task or dropped): the reply is returned before the thread is stored, so the next turn of the "
+                      "same thread runs on the old history and the late write overwrites it - the stored thread is no longer `previous list + new messages + reply`" % name_, line=c_.lineno)
     gk, sk = src(gcall.args[0]), src(scall.args[0])
     kdef_g = rd.reaching(g, gk)
     kdef_s = {d for d in rd.reaching(s, sk) if d.ast is not None and not (isinstance(d.ast, ast.Assign) and src(d.ast.value) == "None")}
